@@ -63,6 +63,8 @@ TIE_SEARCH = {
     "fnv_write_tie": ("TieHash", "FnvHasher::write"),
     "store_find_index_tie": ("TieIntern", "find_index"), "store_find_index_is_findIndex": ("TieIntern", "find_index"),
     "store_get_tie": ("TieIntern", "ObjStringStore::get"),
+    "sweep_tie": ("TieGc", "sweep"), "mark_roots_tie": ("TieGc", "mark_roots"), "trace_references_tie": ("TieGc", "trace_references"),
+    "collect_passes_are_the_model": ("TieGc", "sweep"),
     "allocate_raw_tie": ("TiePacing", "allocate_raw"),
     "collect_if_required_tie": ("TiePacing", "allocate_raw"),
     "collect_tie": ("TiePacing", "allocate_raw"),
